@@ -12,6 +12,11 @@ spec -> code
     scheduler thread releases them in TLC's completion order, each only after the master wrote
     the previous record (impl_C14.scheduler);
   * every record must be identical to the one a single-input run of the same app produces;
+  * STATE BETWEEN RECORDS: in half of the sequence-family runs step 2 is a FUNCTION style app built
+    with a list and a dict argument that it changes in place; its output carries what the call
+    found in them, compared with the spec's `argseen` (always the arguments as constructed:
+    invariant ArgPristine, refuted by TLC for the shared-copy design in MC_ComposedApp_leak.cfg),
+    in serial order, reversed order (spec variable `rev`), as_completed, parallel and alone;
   * the outcome classes are enacted with several VALUE CLASSES (spec variable `named`): the value a
     failing step is handed / a `wrong` step returns is a cogent3 object, a dict with or without
     info/source (incl. "info": None as to_rich_dict() makes), a path string or bytes.
@@ -129,8 +134,9 @@ def write_cfg(scratch: Path, name, n, ws, typed, plans, named=(True,)):
         f"  N = {n}\n  S = {S}\n  Ws = {tla_value(set(ws))}\n"
         f"  WriterTyped = {{{', '.join('TRUE' if t else 'FALSE' for t in typed)}}}\n"
         f"  Named = {{{', '.join('TRUE' if t else 'FALSE' for t in named)}}}\n"
+        "  Reversed = {FALSE}\n  FnStep = 2\n  Isolated = TRUE\n"
     )
-    text += "".join(f"INVARIANT {i}\n" for i in ("TypeOK", "Conservation", "AtMostOnce", "Accounted", "KindAndStep", "PassThrough", "Fifo"))
+    text += "".join(f"INVARIANT {i}\n" for i in ("TypeOK", "Conservation", "AtMostOnce", "Accounted", "KindAndStep", "PassThrough", "Fifo", "ArgPristine"))
     text += "PROPERTY WriteOnce\n"
     p = scratch / name
     p.write_text(text)
@@ -281,13 +287,13 @@ DISTINCT = set()
 
 def alone_key(job, i):
     vc = (job.get("vclass") or [""] * job["n"])[i - 1]
-    return (job.get("family", "seqs"), job.get("step3") or "", job["writer"], job["inputs"], tuple(job["plan"][i - 1]), vc, i)
+    return (job.get("family", "seqs"), (job.get("step3") or "") + "/" + (job.get("step2") or ""), job["writer"], job["inputs"], tuple(job["plan"][i - 1]), vc, i)
 
 
 def count_case(job):
     """distinct non-trivial case: (mode, writer, input kind, plan, W, order) with at least one failing record"""
     if any(o != "ok" for p in job["plan"] for o in p):
-        DISTINCT.add((job.get("kind", "apply_to"), job.get("family"), job.get("step3"), json.dumps(job.get("vclass")), job.get("writer"), job["inputs"], json.dumps(job["plan"]), job.get("w", 0), tuple(job.get("order") or ()), tuple(job.get("delays") or ())))
+        DISTINCT.add((job.get("kind", "apply_to"), job.get("family"), job.get("step2"), job.get("step3"), bool(job.get("rev")), json.dumps(job.get("vclass")), job.get("writer"), job["inputs"], json.dumps(job["plan"]), job.get("w", 0), tuple(job.get("order") or ()), tuple(job.get("delays") or ())))
 
 
 def judge(run, job, rec, obs, alone):
@@ -330,6 +336,12 @@ def judge(run, job, rec, obs, alone):
             bad |= run.fail(f"{mode}:{writer}:live-store:{cls}", detail, what="data store object returned by apply_to differs from the spec's `written`")
     if not obs.get("returns_store"):
         bad |= run.fail(f"{mode}:{writer}:apply_to-does-not-return-store", detail)
+    # the function style step's mutable arguments: every call found them as constructed
+    if job.get("step2") == "fn":
+        if obs.get("argseen") != rec["argseen"]:
+            bad |= run.fail(f"{mode}:function-step-mutable-argument-not-as-constructed", detail | {"spec_argseen": rec["argseen"]}, what="a call of the function style step found arguments changed by another record")
+        if obs.get("ctor_args_unchanged") is False:
+            bad |= run.fail(f"{mode}:function-step-changed-the-callers-argument-objects", detail)
     # each identifier handed to the store exactly once, in the order the schedule dictates
     seq = [wr["i"] for wr in writes]
     if len(seq) != len(set(seq)):
@@ -384,6 +396,10 @@ def judge_as_completed(run, job, rec, obs):
     if obs["ret"] != "ok":
         return run.fail(f"as_completed:raised:{obs.get('exception')}", detail)
     exp = [{"src": i + 1, "obj": v} for i, v in enumerate(rec["vals"])]
+    if job.get("rev"):
+        exp.reverse()
+    if job.get("step2") == "fn" and obs.get("ret") == "ok" and obs.get("argseen") != rec["argseen"]:
+        run.fail("as_completed:function-step-mutable-argument-not-as-constructed", detail | {"spec_argseen": rec["argseen"]}, what="a call of the function style step found arguments changed by another record")
     if obs["anomalies"]:
         return any([run.fail(f"as_completed:anomaly:{a}", detail) for a in sorted(set(obs["anomalies"]))])
     if obs["results"] != exp:
@@ -420,7 +436,7 @@ def trace_of(job, obs):
                 ev.append({"op": "Consume", "t": t, "rec": r})
     if obs["ret"] == "ok":
         ev.append({"op": "Final", "t": 0, "rec": obs["disk"]})
-    return {"plan": [list(p) for p in job["plan"]], "named": job.get("named") or [True] * n, "w": w, "wtyped": impl_C14.WRITERS[job["writer"]][2], "events": ev}
+    return {"plan": [list(p) for p in job["plan"]], "named": job.get("named") or [True] * n, "rev": bool(job.get("rev")), "w": w, "wtyped": impl_C14.WRITERS[job["writer"]][2], "events": ev}
 
 
 def validate_traces(run, scratch, pairs):
@@ -440,6 +456,7 @@ def validate_traces(run, scratch, pairs):
         cfg.write_text(
             "SPECIFICATION TraceSpec\nCONSTANTS\n"
             f"  N = {n}\n  S = {S}\n  Ws = {{0, 1, 2, 3, 4}}\n  WriterTyped = {{TRUE, FALSE}}\n  Named = {{TRUE, FALSE}}\n"
+            "  Reversed = {FALSE, TRUE}\n  FnStep = 2\n  Isolated = TRUE\n"
             "INVARIANT Report\n"
         )
         res = run_tlc("Trace_ComposedApp", os.path.relpath(cfg, VERIF / "specs"), scratch, workers=1, env={"TRACE_FILE": tf, "PLAN_FILE": ""}, timeout=1200)
@@ -478,8 +495,8 @@ def index_records(recs):
     for r in recs:
         plan = tuple(tuple(p) for p in r["plan"])
         if r["act"] == "Serial":
-            ser[(r["n"], plan, r["wtyped"], tuple(r["named"]))] = r
-        else:
+            ser[(r["n"], plan, r["wtyped"], tuple(r["named"]), bool(r["rev"]))] = r
+        elif not r["rev"]:
             par[(r["n"], r["w"], tuple(r["order"]))].append(r)
     return ser, par
 
@@ -517,10 +534,10 @@ def build_parallel_jobs(run, tier, par, cover, in_dir, jid, rnd):
             k += 1
             rec = byplan[plan][impl_C14.WRITERS[writer][2]]
             jid += 1
-            job = {"id": jid, "n": n, "plan": [list(p) for p in plan], "named": [True] * n, "w": w, "order": list(order), "family": "seqs", "vclass": named_wrong_classes(plan, k), "writer": writer, "inputs": ("member", "path")[k % 2], "in_dir": str(in_dir)}
+            job = {"id": jid, "n": n, "plan": [list(p) for p in plan], "named": [True] * n, "w": w, "order": list(order), "family": "seqs", "step2": "fn" if k % 2 == 0 else None, "vclass": named_wrong_classes(plan, k), "writer": writer, "inputs": ("member", "path")[k % 2], "in_dir": str(in_dir)}
             if writer in ("write_json", "write_db") and not any("wrong" in p for p in plan) and k % 2:
                 # the same behaviour with other classes of value flowing between the steps
-                job.update(family="values", vclass=instantiations(plan, False, [True] * n, k, lambda _: writer)[0][1], step3=step3_of(tier, k + 2))
+                job.update(family="values", step2=None, vclass=instantiations(plan, False, [True] * n, k, lambda _: writer)[0][1], step3=step3_of(tier, k + 2))
             pjobs[jid] = (job, rec)
         # behaviours whose failing steps meet values that do not name their source (thorough, n = 2)
         mixed.sort(key=lambda r: (r["plan"], r["named"], r["wtyped"]))
@@ -545,7 +562,7 @@ def build_parallel_jobs(run, tier, par, cover, in_dir, jid, rnd):
         plan = cover[n][(f * 5 + 1) % len(cover[n])]
         delays = [round(rnd.choice([0.0, 0.05, 0.2, 0.4, 0.6]), 2) for _ in range(n)]
         jid += 1
-        fjobs[jid] = {"id": jid, "n": n, "plan": [list(p) for p in plan], "w": w, "order": [], "delays": delays, "writer": wr_cycle[f % 6], "inputs": ("member", "path")[f % 2], "in_dir": str(in_dir)}
+        fjobs[jid] = {"id": jid, "n": n, "plan": [list(p) for p in plan], "w": w, "order": [], "delays": delays, "family": "seqs", "step2": "fn" if f % 2 == 0 else None, "writer": wr_cycle[f % 6], "inputs": ("member", "path")[f % 2], "in_dir": str(in_dir)}
     return pjobs, fjobs, len(chosen), jid
 
 
@@ -589,6 +606,11 @@ def check(run: Run):
                 ser, par = index_records(recs)
                 pjobs, fjobs, nclasses, jid = build_parallel_jobs(run, tier, par, {2: plans2, 3: plans3, 4: plans4}, in_dir, 10**6, rnd)
                 masters = Masters([j for j, _ in pjobs.values()] + list(fjobs.values()), scratch, "par", NMASTERS)
+            # design-level counterexample: one shared copy of the step's arguments breaks ArgPristine
+            leak = run_tlc("ComposedApp", "MC_ComposedApp_leak.cfg", scratch, workers=1, must_pass=False)
+            if not (leak.violated and "ArgPristine" in leak.out):
+                raise MachineryError("TLC did not refute ArgPristine for Isolated = FALSE:\n" + leak.out[-1500:])
+            run.note("design_counterexample", "MC_ComposedApp_leak.cfg (Isolated = FALSE): invariant ArgPristine violated, as expected")
             run.note("behaviours", {"serial": len(ser), "parallel_order_classes": len(par), "parallel": sum(len(v) for v in par.values()), "tlc_wall_s": round(time.time() - t0, 1)})
 
             # --------------------------------------------------------- serial replays
@@ -603,9 +625,18 @@ def check(run: Run):
                 serial_jobs[jid] = (job, rec)
 
             wfor = lambda k: ("write_json", "write_db")[k % 2]
-            for k, ((n, plan, typed, named), rec) in enumerate(sorted(ser.items(), key=lambda kv: kv[0])):
+            for k, ((n, plan, typed, named, rev), rec) in enumerate(sorted(ser.items(), key=lambda kv: kv[0])):
                 lplan = [list(p) for p in plan]
                 base = {"n": n, "plan": lplan, "named": list(named), "w": 0, "order": []}
+                if rev:
+                    # the same records handed over in reversed order: function style step 2 (its
+                    # mutable arguments must not carry anything from one record to the next)
+                    if all(named):
+                        writer = (TYPED_WRITERS if typed else UNTYPED_WRITERS)[k % 2]
+                        add(dict(base, rev=True, family="seqs", step2="fn", vclass=named_wrong_classes(plan, k), writer=writer, inputs=("member", "path")[k % 2]), rec)
+                        if not typed and k % 2:
+                            add(dict(base, rev=True, kind="as_completed", family="seqs", step2="fn", vclass=named_wrong_classes(plan, k), inputs=("member", "path")[(k + 1) % 2]), rec)
+                    continue
                 if all(named):
                     # sequence family, every writer/store (wrongly typed values name their source)
                     vc = named_wrong_classes(plan, k)
@@ -615,10 +646,13 @@ def check(run: Run):
                             continue
                         both = tier == "thorough" and n < 4 and not (n == 3 and writer.endswith("_sqlite"))
                         kinds = ("member", "path") if both else (("member", "path")[(k + wi) % 2],)
-                        for inputs in kinds:
-                            add(dict(base, family="seqs", vclass=vc, writer=writer, inputs=inputs), rec)
+                        for ii, inputs in enumerate(kinds):
+                            # step 2 alternates between the class based app and the function style
+                            # app constructed with mutable arguments that it changes in place
+                            s2 = "fn" if (k + wi + ii) % 2 == 0 else None
+                            add(dict(base, family="seqs", step2=s2, vclass=vc, writer=writer, inputs=inputs), rec)
                     if not typed:
-                        add(dict(base, kind="as_completed", family="seqs", vclass=vc, inputs=("member", "path")[k % 2]), rec)
+                        add(dict(base, kind="as_completed", family="seqs", step2="fn" if k % 2 else None, vclass=vc, inputs=("member", "path")[k % 2]), rec)
                 # value classes: what the failing step is handed (and what a `wrong` step returns)
                 if n == 2 or tier == "thorough" or k % 4 == 0:
                     for family, vc, writer in instantiations(plan, typed, named, k, wfor):
@@ -640,7 +674,7 @@ def check(run: Run):
                 plan[i - 1] = list(prof)
                 vc = ["seqs" if family == "values" else ""] * 4
                 vc[i - 1] = vcls
-                jobs.append({"id": jid, "n": 4, "plan": plan, "w": 0, "order": [], "family": family, "step3": s3 or None, "vclass": vc, "writer": writer, "inputs": inputs, "subset": [i], "in_dir": str(in_dir)})
+                jobs.append({"id": jid, "n": 4, "plan": plan, "w": 0, "order": [], "family": family, "step3": s3.split("/")[0] or None, "step2": s3.split("/")[1] or None, "vclass": vc, "writer": writer, "inputs": inputs, "subset": [i], "in_dir": str(in_dir)})
                 alone_keys[jid] = key
             t0 = time.time()
             obs_all = run_serial_jobs(jobs, scratch)
@@ -727,6 +761,9 @@ def check(run: Run):
         "a dict with info.source or source, a path string (these name their source), or a dict with info None (to_rich_dict shape), a dict "
         "without info, bytes (these do not: the spec then only requires the record under the right identifier with source unknown); "
         "bytes values only with write_db (not JSON serialisable); `wrong` outcomes only in the SequenceCollection-typed family",
+        "state between records: the obligation modelled is define_app's for FUNCTION style apps (constructor arguments reach every call "
+        "as constructed); attributes that a CLASS based app's own main() mutates are that app's state by design and carry no obligation; "
+        "reversed input order is explored for n=2 (all plans) - for larger n the plans themselves range over all arrangements of profiles",
         "outcome of a step depends only on the record (its name), not on the schedule",
         "completion order is forced with gate files; consumption is observed at the data store's write methods in the master",
         "dispatch model (FIFO queue, at most W running) is loky's; MPI executor and progress-bar UI are not covered",
